@@ -56,7 +56,7 @@ CFG = {
     "compare": _compare,
     "nontrivial": _nontrivial,
     "rule": "helper cases: random byte-level PlutusData pools (non-minimal heads, chunked byte strings, bignums, nested lists/maps/constructors, "
-            "values with and without preserved original bytes, repeated values) as redeemer data and datums; PlutusList built with add or decoded "
+            "values with and without preserved original bytes, repeated values, pairs of value-equal but differently encoded values) as redeemer data and datums; PlutusList built with add or decoded "
             "from definite / indefinite encodings with and without the set tag, with duplicates, empty, absent; redeemers in no / map / legacy "
             "array container form, 0..4 entries with repeated entries and edge-biased indices and ex units; cost-model tables over every subset "
             "of {V1,V2,V3} in shuffled insertion order with lengths 0..297 and costs over the whole CBOR int range. builder cases: real "
